@@ -8,13 +8,18 @@ package main
 //	unresolvedRangeSites  range statements whose operand could not be typed (normally empty)
 //	goStmtSites           go statements and select statements
 //	globalWriteSites      assignments rooted at package-level variables outside init (best effort)
-//	timeSites             references to time.Now, math/rand, os.Getenv, maps.Keys, … (envFuncs)
+//	timeSites             references to time.Now, math/rand, os.Getenv, … (envFuncs)
+//	hiddenMapIterSites    map iteration without a `range` over a map in the source: references to
+//	                      maps.Keys/Values/All, (reflect.Value).MapRange/MapKeys, (*sync.Map).Range
+//	packageVarSites       package-level variables of reference type (map, slice, pointer, chan, interface)
+//	                      outside parsers/ (generated tables) and cmd/ (flags): state that could outlive one
+//	                      generation
 //
 // Type information comes from go/types: module-internal packages are checked from the scanned tree,
 // the standard library from GOROOT sources (importer "source"), third-party imports are replaced
 // by empty packages. What this can miss: a range over a value of type-parameter type whose core
-// type is a map; map iteration hidden behind reflection (reflect.Value.MapRange/MapKeys are listed
-// in timeSites when called on a reflect.Value) or inside third-party code; writes to package-level
+// type is a map; map iteration inside third-party code or behind an iterator value that was built in
+// another package; writes to package-level
 // state through method calls, pointers taken earlier, or `delete`/`clear` (only assignments and
 // ++/-- are recognised).
 
@@ -41,8 +46,21 @@ var envFuncs = map[string][]string{
 	"math/rand/v2": {"*"},
 	"crypto/rand":  {"*"},
 	"os":           {"Getenv", "LookupEnv", "Environ", "Getpid", "Getppid", "Hostname", "Getwd", "Getuid", "Getgid", "TempDir", "UserHomeDir"},
-	"maps":         {"Keys", "Values", "All"},
 	"runtime":      {"NumCPU", "GOMAXPROCS", "NumGoroutine"},
+}
+
+// hiddenIter: functions whose result enumerates a map in runtime order.
+var hiddenIter = map[string][]string{
+	"maps": {"Keys", "Values", "All"},
+}
+
+func isHiddenIter(path, name string) bool {
+	for _, n := range hiddenIter[path] {
+		if n == name {
+			return true
+		}
+	}
+	return false
 }
 
 func isEnvFunc(path, name string) bool {
@@ -192,7 +210,9 @@ func extractC18(p *Program, w *Section) {
 	w.Declare("goStmtSites", "GoStmtSite")
 	w.Declare("globalWriteSites", "GlobalWriteSite")
 	w.Declare("timeSites", "CallSite")
-	var mapSites, unresolved, goSites, writes, calls []string
+	w.Declare("hiddenMapIterSites", "CallSite")
+	w.Declare("packageVarSites", "PackageVarSite")
+	var mapSites, unresolved, goSites, writes, calls, hidden, pkgState []string
 
 	for _, pkg := range p.Pkgs {
 		if !pkg.Pipeline {
@@ -205,6 +225,26 @@ func extractC18(p *Program, w *Section) {
 					for _, s := range gd.Specs {
 						for _, n := range s.(*ast.ValueSpec).Names {
 							pkgVars[n.Name] = true
+						}
+					}
+				}
+			}
+		}
+		if !strings.HasPrefix(pkg.Rel, "parsers/") && !strings.HasPrefix(pkg.Rel, "cmd/") {
+			for _, f := range pkg.Files {
+				for _, d := range f.AST.Decls {
+					gd, ok := d.(*ast.GenDecl)
+					if !ok || gd.Tok != token.VAR {
+						continue
+					}
+					for _, sp := range gd.Specs {
+						for _, n := range sp.(*ast.ValueSpec).Names {
+							if n.Name == "_" {
+								continue
+							}
+							if kind := refKind(pkg, n); kind != "" {
+								pkgState = append(pkgState, leanRec(f.Rel, n.Name, kind))
+							}
 						}
 					}
 				}
@@ -268,12 +308,24 @@ func extractC18(p *Program, w *Section) {
 						}
 					case *ast.SelectorExpr:
 						if x, ok := n.X.(*ast.Ident); ok {
-							if path := importPathOf(pkg, f.AST, x); path != "" && isEnvFunc(path, n.Sel.Name) {
-								calls = append(calls, leanRec(f.Rel, fn, path+"."+n.Sel.Name))
+							if path := importPathOf(pkg, f.AST, x); path != "" {
+								if isEnvFunc(path, n.Sel.Name) {
+									calls = append(calls, leanRec(f.Rel, fn, path+"."+n.Sel.Name))
+								}
+								if isHiddenIter(path, n.Sel.Name) {
+									hidden = append(hidden, leanRec(f.Rel, fn, path+"."+n.Sel.Name))
+								}
+								break
 							}
-						} else if pkg.Info != nil && (n.Sel.Name == "MapRange" || n.Sel.Name == "MapKeys") {
-							if tv, ok := pkg.Info.Types[n.X]; ok && tv.Type != nil && tv.Type.String() == "reflect.Value" {
-								calls = append(calls, leanRec(f.Rel, fn, "reflect.Value."+n.Sel.Name))
+						}
+						if pkg.Info != nil && (n.Sel.Name == "MapRange" || n.Sel.Name == "MapKeys" || n.Sel.Name == "Range") {
+							if tv, ok := pkg.Info.Types[n.X]; ok && tv.Type != nil {
+								switch t := strings.TrimPrefix(tv.Type.String(), "*"); {
+								case t == "reflect.Value" && n.Sel.Name != "Range":
+									hidden = append(hidden, leanRec(f.Rel, fn, "reflect.Value."+n.Sel.Name))
+								case t == "sync.Map" && n.Sel.Name == "Range":
+									hidden = append(hidden, leanRec(f.Rel, fn, "sync.Map.Range"))
+								}
 							}
 						}
 					}
@@ -292,6 +344,43 @@ func extractC18(p *Program, w *Section) {
 	w.Def("globalWriteSites", "GlobalWriteSite", writes)
 	w.Comment("references to clock / randomness / environment / unordered-iteration functions; ⟨file, declaration, callee⟩.")
 	w.Def("timeSites", "CallSite", calls)
+	w.Comment("map iteration hidden behind an iterator / reflection / sync.Map; ⟨file, declaration, callee⟩.")
+	w.Def("hiddenMapIterSites", "CallSite", hidden)
+	w.Comment("package-level variables of reference type outside parsers/ and cmd/; ⟨file, name, kind⟩.")
+	w.Def("packageVarSites", "PackageVarSite", pkgState)
+}
+
+// refKind classifies the type of a package-level variable: "map", "slice", "pointer", "chan", "interface",
+// "sync" (a struct of package sync), "untyped" when go/types has no type for it, "" for value types.
+func refKind(pkg *Package, n *ast.Ident) string {
+	if pkg.Info == nil {
+		return "untyped"
+	}
+	obj := pkg.Info.Defs[n]
+	if obj == nil || obj.Type() == nil {
+		return "untyped"
+	}
+	t := obj.Type()
+	if named, ok := t.(*types.Named); ok && named.Obj().Pkg() != nil && named.Obj().Pkg().Path() == "sync" {
+		return "sync"
+	}
+	switch u := t.Underlying().(type) {
+	case *types.Map:
+		return "map"
+	case *types.Slice:
+		return "slice"
+	case *types.Pointer:
+		return "pointer"
+	case *types.Chan:
+		return "chan"
+	case *types.Interface:
+		return "interface"
+	case *types.Basic:
+		if u.Kind() == types.Invalid {
+			return "untyped"
+		}
+	}
+	return ""
 }
 
 func exprString(fset *token.FileSet, e ast.Expr) string {
